@@ -46,6 +46,8 @@ Definition classify_step (t : tag) (c : cls) (st : step) : option (tag * cls) :=
   | SMapWithSide _ _ | SMapWithSideMap _ _ => Some (TU, c)
   | SFilterWithSide _ _ => Some (t, c)
   | STryMap _ _ => Some (TRES, c)
+  | SDebug _ => Some (t, c)
+  | SCustomMap _ => Some (TU, c)
   end.
 
 Fixpoint classify_steps (t : tag) (c : cls) (steps : list step) : option (tag * cls) :=
